@@ -134,6 +134,36 @@ func genBin(r *rand.Rand, below, depth int) *expr {
 	return &expr{op: "+-*+"[r.Intn(4)], a: a, b: b}
 }
 
+// magBound is an upper bound of |e| given bounds of the fields it reads
+func magBound(e *expr, bounds map[int]float64) float64 {
+	switch e.op {
+	case 'l':
+		if e.n < 0 {
+			return float64(-e.n)
+		}
+		return float64(e.n)
+	case 'f':
+		return bounds[e.n] // 0 for a rule-less field that is never set to more than a plain value
+	}
+	x, y := magBound(e.a, bounds), magBound(e.b, bounds)
+	if e.op == '*' {
+		return x * y
+	}
+	return x + y
+}
+
+// tameMul turns the first multiplication of e into an addition
+func tameMul(e *expr) bool {
+	if e.op == 'l' || e.op == 'f' {
+		return false
+	}
+	if e.op == '*' {
+		e.op = '+'
+		return true
+	}
+	return tameMul(e.a) || tameMul(e.b)
+}
+
 // spec: the value the rule would compute from the record's current plain field values
 type spec struct {
 	rules map[int]*rule
@@ -529,16 +559,31 @@ func main() {
 			hub = r.Intn(nPlain)
 			t.Count("history=hub")
 		}
+		bounds := map[int]float64{}
+		for f := 0; f < nPlain; f++ {
+			bounds[f] = 100 // generous bound on the plain values the histories put
+		}
 		for f := nPlain; f < nFields; f++ {
 			name := "Rule_f" + strconv.Itoa(f)
 			if r.Intn(8) == 0 {
 				Global.TestDef(name, nil) // no rule: an ordinary field
 				t.Count("rulefield=norule")
+				bounds[f] = 100
 				continue
 			}
 			ru := &rule{body: genExpr(r, f, 1+r.Intn(2))}
 			if hub >= 0 && r.Intn(8) != 0 {
 				ru.body = &expr{op: "+-"[r.Intn(2)], a: &expr{op: 'f', n: hub}, b: ru.body}
+			}
+			// keep every rule value exactly representable (below 10^14 in magnitude for any
+			// plain field values the histories use): beyond 16 digits the implementation
+			// continues in decimal floating point, which the exact-integer model and the
+			// reference evaluator do not follow (that is C26/C27's subject, not C35's)
+			for bounds[f] = magBound(ru.body, bounds); bounds[f] > 1e13; bounds[f] = magBound(ru.body, bounds) {
+				if !tameMul(ru.body) {
+					ru.body = &expr{op: 'f', n: r.Intn(nPlain)} // sums alone got too big: fall back to a plain field
+				}
+				t.Count("rule=tamed-magnitude")
 			}
 			if h.guarded && r.Intn(2) == 0 {
 				ru.guard = genBin(r, f, 1) // always arithmetic: a number, never ""
